@@ -807,8 +807,21 @@ impl MigrationState {
     /// ([`MigrationTransaction::txid`]) and cannot have changed since — signing and proving add
     /// only authorizing data — so a consumer broadcasting a stored transaction has nothing to tell
     /// the engine that the engine does not already know better.
+    ///
+    /// A no-op for a transaction that is already [`Mined`](MigrationTxState::Mined). The record can
+    /// land LATE: [`advance_migration`](crate::satisfiability::advance_migration) promotes a
+    /// `Proved` row whose transaction the wallet's scan has seen mined, so a consumer whose
+    /// broadcast was acknowledged but whose record was delayed (a failed persist it retries after
+    /// re-reading the state, say) may call this after the promotion. Inclusion is chain-derived
+    /// and outranks the testimony this method records — only
+    /// [`Self::truncate_to_height`] un-mines a transaction — so the mined state, and the height
+    /// it was mined at, stand.
     pub fn mark_broadcast(&mut self, id: MigrationTransferId) {
-        if let Some(tx) = self.transactions.iter_mut().find(|t| t.id == id) {
+        if let Some(tx) = self
+            .transactions
+            .iter_mut()
+            .find(|t| t.id == id && !matches!(t.state, MigrationTxState::Mined { .. }))
+        {
             // The id is the one derived when the transaction was built, not one the caller
             // supplies: a consumer broadcasting a stored transaction cannot produce a different
             // one, and being able to pass a mismatched id was a way to lose track of a
